@@ -23,7 +23,7 @@ import (
 // strings, NULL; + - * ||; relational operators, AND OR NOT, IS NULL, IN)
 
 type node struct {
-	K   string `json:"k"`             // int str null col | add sub mul cat | cmp and or not isnull in | subq
+	K   string `json:"k"`             // int str null col | add sub mul cat | cmp and or not isnull in | subq | insub exists
 	Op  string `json:"op,omitempty"`  // cmp: = <> < <= > >= ; subq: sum max min count countall one
 	Neg bool   `json:"neg,omitempty"` // isnull: IS NOT NULL; in: NOT IN
 	N   int64  `json:"n,omitempty"`   // int
@@ -313,6 +313,25 @@ func evalSubq(n node, e env) (val.Val, error) {
 // hasSubq reports a scalar subquery inside n; reads: the tables they read.
 func hasSubq(n node, reads map[string]bool, correlated *bool) bool {
 	found := false
+	if n.K == "insub" || n.K == "exists" {
+		found = true
+		if reads != nil {
+			reads[n.Q] = true
+		}
+		if w := subqPredWhere(n); correlated != nil && w != nil {
+			var refs [][2]string
+			colRefs(*w, &refs)
+			for _, r := range refs {
+				if r[0] != subqAlias {
+					*correlated = true
+				}
+			}
+		}
+		if n.K == "insub" && len(n.A) > 0 {
+			return hasSubq(n.A[0], reads, correlated) || found
+		}
+		return found
+	}
 	if n.K == "subq" {
 		found = true
 		if reads != nil {
@@ -334,6 +353,30 @@ func hasSubq(n node, reads map[string]bool, correlated *bool) bool {
 		}
 	}
 	return found
+}
+
+// subqPredWhere: the WHERE predicate of an insub / exists node (nil: none).
+func subqPredWhere(n node) *node {
+	switch {
+	case n.K == "insub" && len(n.A) == 2:
+		return &n.A[1]
+	case n.K == "exists" && len(n.A) == 1:
+		return &n.A[0]
+	}
+	return nil
+}
+
+// hasSubqPred reports an IN (subquery) / EXISTS predicate inside n.
+func hasSubqPred(n node, kind string) bool {
+	if n.K == kind {
+		return true
+	}
+	for _, a := range n.A {
+		if hasSubqPred(a, kind) {
+			return true
+		}
+	}
+	return false
 }
 
 // evalTern evaluates a predicate with Kleene logic (logic-operators.md,
@@ -422,8 +465,86 @@ func evalTern(n node, e env) (int, error) {
 			r = ref.Not(r)
 		}
 		return r, nil
+	case "insub", "exists":
+		return evalSubqPred(n, e)
 	}
 	return ref.U, outside("not a predicate: %s", n.K)
+}
+
+// evalSubqPred: value [NOT] IN (SELECT z.c FROM tab z [WHERE ...]) and [NOT]
+// EXISTS (SELECT 1 FROM tab z [WHERE ...]) (comparison-operators.md: IN is
+// = ANY - TRUE if any comparison is TRUE, else UNKNOWN if any is UNKNOWN, else
+// FALSE, FALSE without a record; NOT IN is <> ALL; EXISTS is TRUE with at
+// least one record, else FALSE). The subquery reads the state BEFORE the
+// statement that contains it.
+//
+//	insub:  A[0] the value, A[1] (optional) the WHERE predicate of the subquery
+//	exists: A[0] (optional) the WHERE predicate of the subquery
+func evalSubqPred(n node, e env) (int, error) {
+	mm := e.model()
+	if mm == nil {
+		return ref.U, outside("subquery without a table state")
+	}
+	for _, b := range e {
+		if b.q == subqAlias {
+			return ref.U, outside("nested subquery")
+		}
+	}
+	st := mm.tabs[n.Q]
+	if st == nil {
+		return ref.U, outside("subquery table")
+	}
+	var where *node
+	var a val.Val
+	ci := -1
+	if n.K == "insub" {
+		if len(n.A) < 1 || len(n.A) > 2 {
+			return ref.U, outside("arity")
+		}
+		if ci = st.col(n.C); ci < 0 {
+			return ref.U, outside("unknown column: %s", n.C)
+		}
+		var err error
+		if a, err = evalVal(n.A[0], e); err != nil {
+			return ref.U, err
+		}
+		if len(n.A) == 2 {
+			where = &n.A[1]
+		}
+	} else {
+		if len(n.A) > 1 {
+			return ref.U, outside("arity")
+		}
+		if len(n.A) == 1 {
+			where = &n.A[0]
+		}
+	}
+	r := ref.F
+	for _, row := range st.Rows {
+		if where != nil {
+			inner := append(append(env{}, e...), binding{q: subqAlias, tab: st, row: row})
+			t, err := evalTern(*where, inner)
+			if err != nil {
+				return ref.U, err
+			}
+			if t != ref.T {
+				continue
+			}
+		}
+		if n.K == "exists" {
+			r = ref.T
+			break
+		}
+		rel, open := ref.Compare(a, row[ci])
+		if open {
+			return ref.U, outside("comparison of a number with a non-numeric string: %s, %s", a, row[ci])
+		}
+		r = ref.Or(r, ref.Op(rel, "="))
+	}
+	if n.Neg {
+		r = ref.Not(r)
+	}
+	return r, nil
 }
 
 // colRefs lists the (qualifier, column) pairs an expression reads.
@@ -483,6 +604,25 @@ func render(n node, q map[string]string) string {
 			s += " WHERE " + render(n.A[0], q)
 		}
 		return s + ")"
+	case "insub":
+		op := " IN "
+		if n.Neg {
+			op = " NOT IN "
+		}
+		sq := "(SELECT " + q[subqAlias] + "." + n.C + " FROM " + q["tref:"+n.Q] + " " + q[subqAlias]
+		if len(n.A) == 2 {
+			sq += " WHERE " + render(n.A[1], q)
+		}
+		return "(" + render(n.A[0], q) + op + sq + "))"
+	case "exists":
+		sq := "EXISTS (SELECT 1 FROM " + q["tref:"+n.Q] + " " + q[subqAlias]
+		if len(n.A) == 1 {
+			sq += " WHERE " + render(n.A[0], q)
+		}
+		if n.Neg {
+			return "(NOT " + sq + "))"
+		}
+		return "(" + sq + "))"
 	case "in":
 		var xs []string
 		for _, a := range n.A[1:] {
@@ -535,8 +675,15 @@ type opT struct {
 	Drops   []string `json:"drops,omitempty"`
 	Old     string   `json:"old,omitempty"`
 	New     string   `json:"new,omitempty"`
-	Wrap    []string `json:"wrap,omitempty"` // control flow around the statement, outermost first: if case while func
+	Wrap    []string `json:"wrap,omitempty"`    // control flow around the statement, outermost first: if case while func; "prep" (innermost only): PREPARE with every literal a placeholder + EXECUTE USING
+	Src     string   `json:"src,omitempty"`     // how the table SrcTab, which the statement only reads, is reached: "" directly | with (WITH c05ct AS (SELECT * FROM tab)) | derived ((SELECT * FROM tab) in the FROM clause)
+	SrcTab  string   `json:"src_tab,omitempty"` // insel/repsel: the source; join forms: the right table (not a target); otherwise the table read by the subqueries
 }
+
+const (
+	commonTableName  = "c05ct"
+	derivedTableName = "c05dt"
+)
 
 // model: the tables by logical name.
 type model struct {
@@ -678,7 +825,8 @@ func (m *model) given(op opT) ([][]val.Val, []int, error) {
 			}
 			var vs []val.Val
 			for _, n := range r {
-				v, err := evalVal(n, nil)
+				// a value may be a scalar subquery: it reads the state before the statement
+				v, err := evalVal(n, env{{q: "\x00values", tab: &table{}, m: m}})
 				if err != nil {
 					return nil, nil, err
 				}
@@ -1176,6 +1324,27 @@ func (m *model) apply(op opT) (*effect, error) {
 // naming: how the tables of a case are written in SQL.
 type naming struct {
 	kind map[string]string // logical table -> file | temp | stdin
+	ffmt map[string]string // logical table -> file format of a file table: "" (csv) | tsv | json | jsonl | ltsv | fixed
+	pos  map[string]string // fixed: the delimiter positions every reference gives, SPACES or [p1, p2, ...]
+}
+
+// fixedPos: the delimiter positions of a fixed-length file table ("" for every other table).
+func (nm naming) fixedPos(t string) string {
+	if nm.kind[t] == "file" && nm.ffmt[t] == "fixed" {
+		return nm.pos[t]
+	}
+	return ""
+}
+
+// fileExt: the extension of a file table (csvq chooses the format by it).
+func (nm naming) fileExt(t string) string {
+	switch nm.ffmt[t] {
+	case "tsv", "json", "jsonl", "ltsv":
+		return "." + nm.ffmt[t]
+	case "fixed":
+		return ".txt"
+	}
+	return ".csv"
 }
 
 // tref: the table reference of a logical table.
@@ -1184,8 +1353,12 @@ func (nm naming) tref(t string, ext bool) string {
 	case "stdin":
 		return "STDIN"
 	case "file":
+		if p := nm.fixedPos(t); p != "" {
+			// a fixed-length file is always named by a table object; its name in the statement is the file's base name
+			return "FIXED('" + p + "', `" + t + ".txt`)"
+		}
 		if ext {
-			return "`" + t + ".csv`"
+			return "`" + t + nm.fileExt(t) + "`"
 		}
 	}
 	return t
@@ -1197,7 +1370,31 @@ func (nm naming) sql(op opT) string {
 	q := map[string]string{subqAlias: subqAlias}
 	for t := range nm.kind {
 		q[t] = nm.tref(t, false)
+		if nm.fixedPos(t) != "" {
+			q[t] = t
+		}
 		q["tref:"+t] = nm.tref(t, op.Ext)
+	}
+	// a table that is only read, reached through a common table or a derived table
+	with, srcItem := "", ""
+	if op.Src != "" && nm.kind[op.SrcTab] != "" {
+		direct := nm.tref(op.SrcTab, op.Ext)
+		switch op.Src {
+		case "with":
+			with = "WITH " + commonTableName + " AS (SELECT * FROM " + direct + ") "
+			q["tref:"+op.SrcTab] = commonTableName
+			srcItem = commonTableName
+		case "derived":
+			q["tref:"+op.SrcTab] = "(SELECT * FROM " + direct + ")"
+			srcItem = "(SELECT * FROM " + direct + ") " + derivedTableName
+		}
+	}
+	fromSrc := srcItem != "" && op.SrcTab == op.O // the FROM clause itself names the table
+	if fromSrc && (op.K == "insel" || op.K == "repsel") {
+		q[op.O] = commonTableName
+		if op.Src == "derived" {
+			q[op.O] = derivedTableName
+		}
 	}
 	where := func() string {
 		if op.Where == nil {
@@ -1227,7 +1424,11 @@ func (nm naming) sql(op opT) string {
 		for _, n := range op.Sel {
 			es = append(es, render(n, q))
 		}
-		s := " SELECT " + strings.Join(es, ", ") + " FROM " + nm.tref(op.O, op.Ext) + where()
+		src := nm.tref(op.O, op.Ext)
+		if fromSrc {
+			src = srcItem
+		}
+		s := " SELECT " + strings.Join(es, ", ") + " FROM " + src + where()
 		if op.Order != "" {
 			s += " ORDER BY " + op.Order
 			if op.Desc {
@@ -1239,9 +1440,18 @@ func (nm naming) sql(op opT) string {
 	from := func() string {
 		alias := op.Alias || nm.kind[op.T] == "stdin" || nm.kind[op.O] == "stdin"
 		l, r := nm.tref(op.T, op.Ext), nm.tref(op.O, op.Ext)
-		if alias {
+		if fromSrc {
+			r = q["tref:"+op.O]
+		}
+		switch {
+		case alias:
 			q[op.T], q[op.O] = "x", "y"
 			l, r = l+" x", r+" y"
+		case fromSrc && op.Src == "derived":
+			q[op.O] = derivedTableName
+			r += " " + derivedTableName
+		case fromSrc:
+			q[op.O] = commonTableName
 		}
 		switch op.Join {
 		case "cross":
@@ -1260,31 +1470,31 @@ func (nm naming) sql(op opT) string {
 	}
 	switch op.K {
 	case "insert":
-		return "INSERT INTO " + nm.tref(op.T, op.Ext) + list(op.Cols) + values()
+		return with + "INSERT INTO " + nm.tref(op.T, op.Ext) + list(op.Cols) + values()
 	case "insel":
-		return "INSERT INTO " + nm.tref(op.T, op.Ext) + list(op.Cols) + sel()
+		return with + "INSERT INTO " + nm.tref(op.T, op.Ext) + list(op.Cols) + sel()
 	case "replace":
-		return "REPLACE INTO " + nm.tref(op.T, op.Ext) + list(op.Cols) + " USING (" + strings.Join(op.Keys, ", ") + ")" + values()
+		return with + "REPLACE INTO " + nm.tref(op.T, op.Ext) + list(op.Cols) + " USING (" + strings.Join(op.Keys, ", ") + ")" + values()
 	case "repsel":
-		return "REPLACE INTO " + nm.tref(op.T, op.Ext) + list(op.Cols) + " USING (" + strings.Join(op.Keys, ", ") + ")" + sel()
+		return with + "REPLACE INTO " + nm.tref(op.T, op.Ext) + list(op.Cols) + " USING (" + strings.Join(op.Keys, ", ") + ")" + sel()
 	case "update":
 		var ss []string
 		for _, s := range op.Set {
 			ss = append(ss, s.C+" = "+render(s.E, q))
 		}
-		return "UPDATE " + nm.tref(op.T, op.Ext) + " SET " + strings.Join(ss, ", ") + where()
+		return with + "UPDATE " + nm.tref(op.T, op.Ext) + " SET " + strings.Join(ss, ", ") + where()
 	case "delete":
-		return "DELETE FROM " + nm.tref(op.T, op.Ext) + where()
+		return with + "DELETE FROM " + nm.tref(op.T, op.Ext) + where()
 	case "updjoin":
 		f := from()
 		var ss []string
 		for _, s := range op.Set {
 			ss = append(ss, q[s.T]+"."+s.C+" = "+render(s.E, q))
 		}
-		return "UPDATE " + targets() + " SET " + strings.Join(ss, ", ") + f + where()
+		return with + "UPDATE " + targets() + " SET " + strings.Join(ss, ", ") + f + where()
 	case "deljoin":
 		f := from()
-		return "DELETE " + targets() + f + where()
+		return with + "DELETE " + targets() + f + where()
 	case "add":
 		var cs []string
 		for _, a := range op.Adds {
@@ -1341,7 +1551,7 @@ func forUpdateTables(op opT) []string {
 // unique per step and nesting level and declared where they are used.
 func wrapSQL(stmt string, wrap []string, step int) (string, bool) {
 	s := stmt + ";"
-	if len(wrap) > 2 {
+	if len(wrap) > 3 || (len(wrap) == 3 && wrap[2] != "prep") {
 		return s, false
 	}
 	for i := len(wrap) - 1; i >= 0; i-- {
@@ -1353,6 +1563,17 @@ func wrapSQL(stmt string, wrap []string, step int) (string, bool) {
 		case "while":
 			v := fmt.Sprintf("@c05w%d_%d", step, i)
 			s = "VAR " + v + " := 0; WHILE " + v + " < 1 DO " + v + " := " + v + " + 1; " + s + " END WHILE;"
+		case "prep":
+			if i != len(wrap)-1 {
+				return s, false
+			}
+			text, vals := placeholders(stmt)
+			p := fmt.Sprintf("c05p%d", step)
+			s = "PREPARE " + p + " FROM " + val.QuoteSQL(text) + "; EXECUTE " + p
+			if len(vals) > 0 {
+				s += " USING " + strings.Join(vals, ", ")
+			}
+			s += "; DISPOSE PREPARE " + p + ";"
 		case "func":
 			f := fmt.Sprintf("c05f%d_%d", step, i)
 			s = "DECLARE " + f + " FUNCTION () AS BEGIN " + s + " RETURN 1; END; VAR " + fmt.Sprintf("@c05r%d_%d", step, i) + " := " + f + "();"
@@ -1361,4 +1582,67 @@ func wrapSQL(stmt string, wrap []string, step int) (string, bool) {
 		}
 	}
 	return s, true
+}
+
+// placeholders turns every integer and string literal of a rendered statement
+// into a positional placeholder (prepared-statement.md) and returns the
+// literals in order; -3 becomes -? with the value 3. The statement text is the
+// one nm.sql produces: literals are unsigned digit runs and single-quoted
+// strings with backslash escapes, identifiers may be back-quoted.
+func placeholders(sql string) (string, []string) {
+	isWord := func(c byte) bool {
+		return c == '_' || c == '.' || c == '@' || c == '`' || (c >= '0' && c <= '9') || (c >= 'a' && c <= 'z') || (c >= 'A' && c <= 'Z') || c >= 0x80
+	}
+	var b strings.Builder
+	var vals []string
+	for i := 0; i < len(sql); {
+		c := sql[i]
+		switch {
+		case c == '`':
+			j := i + 1
+			for j < len(sql) && sql[j] != '`' {
+				j++
+			}
+			j = min(j+1, len(sql))
+			b.WriteString(sql[i:j])
+			i = j
+		case c == '\'' && strings.HasSuffix(b.String(), "FIXED("):
+			// the delimiter positions of a table object stay in the statement text
+			j := i + 1
+			for j < len(sql) && sql[j] != '\'' {
+				j++
+			}
+			j = min(j+1, len(sql))
+			b.WriteString(sql[i:j])
+			i = j
+		case c == '\'':
+			j := i + 1
+			for j < len(sql) && sql[j] != '\'' {
+				if sql[j] == '\\' {
+					j++
+				}
+				j++
+			}
+			j = min(j+1, len(sql))
+			vals = append(vals, sql[i:j])
+			b.WriteByte('?')
+			i = j
+		case c >= '0' && c <= '9' && (i == 0 || !isWord(sql[i-1])):
+			j := i
+			for j < len(sql) && sql[j] >= '0' && sql[j] <= '9' {
+				j++
+			}
+			if j < len(sql) && isWord(sql[j]) {
+				b.WriteString(sql[i:j])
+			} else {
+				vals = append(vals, sql[i:j])
+				b.WriteByte('?')
+			}
+			i = j
+		default:
+			b.WriteByte(c)
+			i++
+		}
+	}
+	return b.String(), vals
 }
